@@ -80,6 +80,74 @@ func genAgg(seed uint64, tier string, emphasis int) *plan.Plan {
 		n = 8 + r.IntN(60)
 	}
 	tcp := 0
+	// mkRec makes the next record of key k (commit: the generator's picture of the flow moves on)
+	mkRec := func(k int, commit bool) (plan.Op, bool) {
+		saved := *flows[k]
+		savedTCP := tcp
+		f := flows[k]
+		node := r.IntN(2)
+		if !catNeedsCorrelation(f.cat) {
+			node = nodeSingle
+		}
+		ni := node
+		if node == nodeSingle {
+			ni = 0
+		}
+		if !f.exists {
+			*f = genFlow{cat: f.cat, start: f.start, rates: f.rates, base: f.base}
+			// a new flow record starts a fresh reporting history
+			f.lastEnd = [2]uint32{}
+		}
+		prev := f.lastEnd[ni]
+		if prev < f.start {
+			prev = f.start
+		}
+		end := prev + uint32(1+r.IntN(20))
+		if r.IntN(4) == 0 {
+			// try to tie with / undercut the other node's latest end time
+			other := f.lastEnd[1-ni]
+			if other > prev {
+				end = other - uint32(r.IntN(2))
+				if end <= prev {
+					end = prev + 1
+				}
+			}
+		}
+		f.lastEnd[ni] = end
+		if node == nodeSingle {
+			f.lastEnd[1] = end
+		}
+		dt := uint64(end - f.start)
+		tot := [4]int64{}
+		for j := range tot {
+			tot[j] = int64(f.base[j] + f.rates[j]*dt)
+		}
+		tcp++
+		op := plan.Op{K: "rec", A: int64(k), B: int64(node), S: fmt.Sprintf("STATE-%d", tcp), D: int64(r.IntN(1 << 20)),
+			N: []int64{int64(f.start), int64(end), tot[0], tot[1], tot[2], tot[3], int64(r.IntN(1000)), int64(r.IntN(50))}}
+		if r.IntN(8) == 0 {
+			op.N[6] = int64(r.Uint64() >> 3)
+		}
+		if !f.exists {
+			f.exists = true
+			f.active, f.inac = now.Add(A), now.Add(I)
+			f.ready = !catNeedsCorrelation(f.cat)
+			f.seen = [2]bool{}
+		} else {
+			f.inac = now.Add(I)
+		}
+		if node != nodeSingle {
+			f.seen[node] = true
+			if f.seen[0] && f.seen[1] {
+				f.ready = true
+			}
+		}
+		if !commit {
+			*flows[k] = saved
+			tcp = savedTCP
+		}
+		return op, true
+	}
 	deadlines := func() []time.Time {
 		var ds []time.Time
 		for _, f := range flows {
@@ -143,65 +211,31 @@ func genAgg(seed uint64, tier string, emphasis int) *plan.Plan {
 		switch {
 		case x < wRec:
 			k := r.IntN(nk)
-			f := flows[k]
-			node := r.IntN(2)
-			if !catNeedsCorrelation(f.cat) {
-				node = nodeSingle
+			if !flows[k].exists && r.IntN(8) == 0 {
+				// the first record of a flow arrives without an element the process needs: refused,
+				// and nothing of it may stay behind
+				op, _ := mkRec(k, false)
+				op.X = aggOmittable[r.IntN(len(aggOmittable))]
+				pl.Ops = append(pl.Ops, op)
+				continue
 			}
-			ni := node
-			if node == nodeSingle {
-				ni = 0
-			}
-			if !f.exists {
-				*f = genFlow{cat: f.cat, start: f.start, rates: f.rates, base: f.base}
-				// a new flow record starts a fresh reporting history
-				f.lastEnd = [2]uint32{}
-			}
-			prev := f.lastEnd[ni]
-			if prev < f.start {
-				prev = f.start
-			}
-			end := prev + uint32(1+r.IntN(20))
-			if r.IntN(4) == 0 {
-				// try to tie with / undercut the other node's latest end time
-				other := f.lastEnd[1-ni]
-				if other > prev {
-					end = other - uint32(r.IntN(2))
-					if end <= prev {
-						end = prev + 1
+			op, _ := mkRec(k, true)
+			if r.IntN(4) == 0 && nk > 1 {
+				// a message that carries records of several 5-tuples
+				bundle := plan.Op{K: "recs", F: []plan.Op{op}}
+				for _, k2 := range r.Perm(nk) {
+					if k2 != k && len(bundle.F) < 3 && pl.Cfg[fmt.Sprintf("v6%d", k2)] == pl.Cfg[fmt.Sprintf("v6%d", k)] && r.IntN(3) > 0 {
+						op2, _ := mkRec(k2, true)
+						bundle.F = append(bundle.F, op2)
 					}
 				}
-			}
-			f.lastEnd[ni] = end
-			if node == nodeSingle {
-				f.lastEnd[1] = end
-			}
-			dt := uint64(end - f.start)
-			tot := [4]int64{}
-			for j := range tot {
-				tot[j] = int64(f.base[j] + f.rates[j]*dt)
-			}
-			tcp++
-			op := plan.Op{K: "rec", A: int64(k), B: int64(node), S: fmt.Sprintf("STATE-%d", tcp), D: int64(r.IntN(1 << 20)),
-				N: []int64{int64(f.start), int64(end), tot[0], tot[1], tot[2], tot[3], int64(r.IntN(1000)), int64(r.IntN(50))}}
-			if r.IntN(8) == 0 {
-				op.N[6] = int64(r.Uint64() >> 3)
-			}
-			pl.Ops = append(pl.Ops, op)
-			if !f.exists {
-				f.exists = true
-				f.active, f.inac = now.Add(A), now.Add(I)
-				f.ready = !catNeedsCorrelation(f.cat)
-				f.seen = [2]bool{}
-			} else {
-				f.inac = now.Add(I)
-			}
-			if node != nodeSingle {
-				f.seen[node] = true
-				if f.seen[0] && f.seen[1] {
-					f.ready = true
+				if len(bundle.F) > 1 {
+					r.Shuffle(len(bundle.F), func(a, b int) { bundle.F[a], bundle.F[b] = bundle.F[b], bundle.F[a] })
+					pl.Ops = append(pl.Ops, bundle)
+					continue
 				}
 			}
+			pl.Ops = append(pl.Ops, op)
 		case x < wRec+wAdv:
 			var d time.Duration
 			ds := deadlines()
